@@ -242,16 +242,22 @@ def walk_progress(allocator):
     except Exception as ex:  # pylint: disable=broad-except
         return "n/a: %s" % type(ex).__name__
     # join point 0 is reached with current_step = -1, then one step per further join point
+    finished = _Reporter()
     while d.current_step != d.number_of_steps:
         try:
+            # start_benchmark (current_step = -1, before the first join point) and the driver's periodic wake-ups report progress of
+            # the running step; joinpoint_reached reports the finished step
+            d.update_progress_message()
+            running, d.progress_reporter = d.progress_reporter, finished
             d.update_progress_message(task_finished=True)
+            d.progress_reporter = running
         except (IndexError, KeyError) as ex:
             return "%s step %d" % (type(ex).__name__, d.current_step)
         except Exception as ex:  # pylint: disable=broad-except
             return "n/a: %s" % type(ex).__name__
         d.current_step += 1
-    if len(d.progress_reporter.lines) != d.number_of_steps:
-        return "n/a: %d messages" % len(d.progress_reporter.lines)
+    if len(finished.lines) != d.number_of_steps:
+        return "n/a: %d messages" % len(finished.lines)
     return "ok"
 
 
